@@ -61,7 +61,7 @@ def correspond(ctx):
     cases = sk.gen_cases(ctx, se.NAMES, n_cfg, scale=ctx.pick(1, 4))
     sk.correspond(ctx, res, cases)
     sk.direct(ctx, res, cases, oracle_for(res), history=True)
-    res.extra["schemes_with_theorem"] = ["PiBas", "PiPack", "SSE2", "PiPtr", "ANSS16", "CT14", "SSE1", "Pi2Lev", "DP17 (no identifier missed; partial)"]
+    res.extra["schemes_with_theorem"] = ["PiBas", "PiPack", "SSE2", "PiPtr", "ANSS16", "CT14", "SSE1", "Pi2Lev", "DP17 (returns, no identifier missed; nothing extra under the trial-decryption hypothesis ProbesClean evaluated on every run)"]
     res.extra["schemes_modelled"] = list(sc.MODELLED)
     res.rule = (f"per scheme {n_cfg} supported configurations (small block / capacity parameters so that every case split is reached) x "
                 f"{len(se.PROFILES)} database profiles (one posting; total a power of two; a single list of 2^t; lists one below / on / one above "
